@@ -1,19 +1,19 @@
 SPECIFICATION Spec
 CONSTANTS
   Proc = {"w1", "x"}
-  Roots <- RootsS
-  Kids <- KidsS
-  MaxPacks = 4
-  MaxIdx = 4
-  MaxSnaps = 2
+  Roots <- Roots2
+  Kids <- KidsC
+  MaxPacks = 2
+  MaxIdx = 2
+  MaxSnaps = 3
   CanBackup = {"w1"}
   CanRead = {}
-  CanPrune = {"x"}
-  CanForget = {"x"}
-  CanRewrite = {}
+  CanPrune = {}
+  CanForget = {}
+  CanRewrite = {"x"}
   CanTag = {}
-  Budget <- BudgetP
-  Variant = "prune_delete_first"
+  Budget <- Budget2
+  Variant = "rewrite_remove_first"
 VIEW View
 INVARIANTS
   SnapshotData
